@@ -71,6 +71,7 @@ def load_metadata(username="master"):
             timestamp = os.path.getmtime(user_file(filename, username))
             theory_cache[username][filename] = {
                 'imports': data['imports'],
+                'imports_timestamp': timestamp,
                 'description': data['description']
             }
 
@@ -123,8 +124,12 @@ def get_import_order(filenames, username="master"):
         if name in depend_list:
             return
         else:
-            if name not in theory_cache[username]:
-                # File created after the metadata was loaded
+            cache = theory_cache[username].get(name)
+            path = user_file(name, username)
+            if cache is None or not os.path.exists(path) or \
+               cache.get('imports_timestamp') != os.path.getmtime(path):
+                # The file is new, has been removed or has changed
+                # since its imports were read
                 load_theory_cache(name, username)
             for import_name in theory_cache[username][name]['imports']:
                 dfs(import_name)
@@ -163,6 +168,7 @@ def load_theory_cache(filename, username="master"):
     # The file is new or has changed: its imports and description may have changed as well
     data = load_json_data(filename, username)
     cache['imports'] = data['imports']
+    cache['imports_timestamp'] = timestamp
     cache['description'] = data['description']
 
     # Load all required macros and methods for this file.
